@@ -73,7 +73,7 @@ QUICK_JOBS = 8
 # slim_for_sub_slim / sub_pixel_areas / sub_mask_native_for_sub_mask_slim raise TypeError. It was found by this module while
 # it was being built, repaired in /repo ("fix:" commit, known_findings.json -> fixed) and is judged since then.
 JUDGE_FLOAT_TYPED_MAPS = True
-MIN_MONITORS = {"*": {"grid.formula": 20, "grid.count": 20, "index.slim_for_sub_slim": 20, "index.float_typed_map": 5, "areas.each": 20,
+MIN_MONITORS = {"*": {"grid.formula": 20, "grid.count": 20, "index.slim_for_sub_slim": 20, "index.float_typed_map": 5, "iterate.rule.sequence_on_one_sampler": 10, "areas.each": 20,
                       "areas.sum": 20, "binned.mean": 20, "binned.affine": 20, "binned.constant": 20,
                       "sampler.array_via_func": 20, "decorator.plain.one_call_with_centres": 5,
                       "decorator.plain.result": 5, "decorator.sub.probe_grid": 20, "decorator.sub.binned": 20,
@@ -637,6 +637,34 @@ def check_iterate(ctx, i):
     tol = TOLS[int(r.integers(3))]
     how = ("raw", "sampler", "stacked")[int(r.integers(3))]
     run_iterate(ctx, "iterate:%d" % i, m, fam, scales, origin, f, fd, steps, frac, tol, how, ())
+    if i % 3 == 0:
+        # history: a second, different function evaluated through the SAME sampler / the same Grid2D object (whose over
+        # sampler is cached) must again obey the rule - per-level state remembered from the first function would show here
+        g, gd = make_func(r, m, scales, origin, kind=FUNC_KINDS[(i + 3) % len(FUNC_KINDS)])
+        aa = ctx.aa
+        mask = aa.Mask2D(mask=m.copy(), pixel_scales=scales, origin=origin)
+        p1, p2 = ctx.profiles["VerifC09Ones"](f), ctx.profiles["VerifC09Ones"](g)
+        if how == "sampler":
+            smp = aa.OverSamplerIterate(mask=mask, sub_steps=list(steps), fractional_accuracy=frac, relative_accuracy=tol)
+            calls = [lambda: smp.array_via_func_from(func=undecorated, obj=p1), lambda: smp.array_via_func_from(func=undecorated, obj=p2),
+                     lambda: smp.array_via_func_from(func=undecorated, obj=p1)]
+        else:
+            grid = aa.Grid2D.from_mask(mask=mask, over_sampling=aa.OverSamplingIterate(fractional_accuracy=frac, relative_accuracy=tol, sub_steps=list(steps)))
+            calls = [lambda: getattr(p1, how)(grid), lambda: getattr(p2, how)(grid), lambda: getattr(p1, how)(grid)]
+        for k, (call, (fn, fnd)) in enumerate(zip(calls, ((f, fd), (g, gd), (f, fd)))):
+            with np.errstate(all="ignore"):
+                exp, levels, ties, cents, paths, fmax = ref_iterate(fn, m, scales, origin, list(steps), frac, tol)
+            ok, res = ctx.guarded("iterate.exception", call)
+            if not ok:
+                continue
+            got = np.asarray(_np(res.slim) if hasattr(res, "slim") else _np(res), dtype=float).reshape(-1)
+            scale = max(fmax, 1e-2 * float(fnd.get("mag", 0.0))) or 1.0
+            keep = ~ties
+            good = got.shape == exp.shape and bool(np.all(np.abs(got[keep] - exp[keep]) <= 1e-9 * scale))
+            d6_shape = bool(np.all(cents == 0.0)) and bool(np.all(got == 0.0)) and not bool(np.all(exp == 0.0))
+            ctx.check(good or d6_shape, "iterate.rule.sequence_on_one_sampler", call_number=k + 1, mask=m, pixel_scales=scales, origin=origin, function=fnd,
+                      sub_steps=list(steps), fractional_accuracy=frac, absolute_tolerance=tol, entry=how, expected=exp, got=got,
+                      reference_stopping_sub_size=levels)
 
 
 def check_d6(ctx):
